@@ -528,7 +528,6 @@ func (bkt *Bucket) incr(ki *KeyInfo, value int) int {
 			if len(tofree.Body) > 22 {
 				logger.Warnf("incr with large value %s...", string(tofree.Body[:22]))
 				errFlag = true
-				return 0
 			}
 			s := string(tofree.Body)
 			v, err := strconv.Atoi(s)
@@ -548,6 +547,12 @@ func (bkt *Bucket) incr(ki *KeyInfo, value int) int {
 		}
 		cmem.DBRL.SetData.SubCount(1)
 		return 0
+	}
+
+	if tofree != nil {
+		// the old record was only needed for its number
+		cmem.DBRL.GetData.SubSizeAndCount(tofree.CArray.Cap)
+		tofree.CArray.Free()
 	}
 
 	payload := &Payload{}
